@@ -114,6 +114,16 @@ def gen(chk, tier):
         g.one("short_reads", "sm2.genkey", nilreader=False, script=script)
         g.one("short_reads", "sm2.sign", kind="hashed", priv=b32(d), e=rb(rng, 32), script=[dict(s) for s in script])
     g.one("nil_reader", "sm2.genkey", nilreader=True, script=[])
+    # a failure after VERY many rejected candidates (a retry limit that gives up must still give up with an error, and
+    # before it the source's failure must still be reported): n copies of one rejected candidate, then EOF / a fault in
+    # the middle of the next draw
+    from ..sm2gen import N as _N
+    for n_, cand in ((5000, (1 << 256) - 1), (70000, 0), (70000, _N - 1)):
+        for tail in ([], [dict(d=b32(rscalar(rng))[:11], err="boom")], [dict(d=[], err="boom")]):
+            g.one("failure_after_long_run", "sm2.genkey", nilreader=False, run=dict(d=b32(cand), n=n_), script=[dict(x) for x in tail])
+            if cand != _N - 1:            # n-1 is a valid nonce
+                g.one("failure_after_long_run", "sm2.sign", kind="hashed", priv=b32(d), e=rb(rng, 32), run=dict(d=b32(cand), n=n_),
+                      script=[dict(x) for x in tail])
     # the id/za-level entry points under a failing source
     for kind in ("za", "id"):
         kw = dict(kind=kind, priv=b32(d), msg=rb(rng, 5), script=[dict(d=b32(0) + b32(1)[:10], err="boom")])
